@@ -283,7 +283,7 @@ func foldBinding(r *core.Run) {
 					map[string]interface{}{"input": single, "output": singleOut, "v8_input": m.Input, "v8_output": m.Output, "jsfold": spec, "context": cx.name,
 						"loader": map[api.Loader]string{api.LoaderJS: "js", api.LoaderTS: "ts"}[cx.loader], "minify": cx.flags})
 			}
-			if (p.lo+ui)%1500 == 7 {
+			if (p.lo+ui)%4000 == 7 {
 				r.Sample(map[string]interface{}{"kind": "fold", "expr": c.expr(), "jsfold": c.Expect.Ser(), "exact": c.Exact, "v8": input})
 			}
 		}
